@@ -97,6 +97,7 @@ func c0102(rep *ev.Reporter, tier string, judge func(c *Case, tr *hx.Trace, w *r
 		general2(tier, maxCycle, emit)
 		sharedRoles(8, emit)
 		forgetCall(8, emit)
+		forgetCallStr(8, emit)
 		if tier == "thorough" {
 			general3(5, emit)
 		}
